@@ -109,6 +109,26 @@ def run(tier):
     if res.invariant_violated:
         rep.violation("spec:SolveLoop " + ",".join(res.violated), {"tlc": res.out[-3000:]})
     jobs = jobs_for(tier, rng)
+    # the default order of a user script: the process does not switch 64-bit mode on itself; the problem (and its
+    # tables) exist before the solver turns it on.  Dyadic tables are exact in single precision too, so every sweep
+    # must still be the exact backup, in float64.
+    late = []
+    for k in range(5 if tier == "quick" else 25):
+        kind = ["VI", "SAVI", "RVI", "PVI", "PI"][k % 5]
+        m = gen.unichain(rng, v0max=2, PD=2) if kind == "RVI" else (gen.ring(rng, 3, extra=2, v0max=1) if kind == "PVI"
+                                                                      else gen.union(rng, 4, PD=rng.choice([2, 4]), v0max=2))
+        job = {"mdp": m, "kind": kind, "gamma": [1, 1] if kind in ("RVI", "PVI") else rng.choice([[1, 2], [1, 4], [3, 4]]),
+               "eps": [1, 3], "test": "span", "calls": [2, 3], "mbs": rng.choice([3, 1024]), "shuffle": False,
+               "tag": f"late-x64-{kind}{k}"}
+        if kind == "PVI":
+            job.update({"period": 2, "clear": False})
+        if kind == "PI":
+            job.update({"max_eval_iter": 3, "reset": False})
+        late.append(job)
+    lj, lt = solverlib.run_jobs([j for j in late if j["kind"] != "PI"], late_x64=True)
+    solverlib.judge(rep, lj, lt, label="C08", known_key=known_key)
+    lj, lt = solverlib.run_jobs([j for j in late if j["kind"] == "PI"], late_x64=True)
+    solverlib.judge(rep, lj, lt, module="PITrace", label="C08")
     j2, traces = solverlib.run_jobs(jobs)
     solverlib.judge(rep, j2, traces, label="C08", known_key=known_key)
     shown = set()
